@@ -4,6 +4,7 @@ import (
 	"bytes"
 	"fmt"
 	"io"
+	"math"
 	"sort"
 	"strconv"
 	"strings"
@@ -177,7 +178,17 @@ func (s *state) walk(node ast.Node) {
 	case *ast.IntNode:
 		s.js(node.String())
 	case *ast.FloatNode:
-		s.js(node.String())
+		// (a global may hold a value that no literal can: 1.0/0.0 in a globals file)
+		switch {
+		case math.IsNaN(node.Value):
+			s.js("NaN")
+		case math.IsInf(node.Value, 1):
+			s.js("Infinity")
+		case math.IsInf(node.Value, -1):
+			s.js("(-Infinity)")
+		default:
+			s.js(node.String())
+		}
 	case *ast.BoolNode:
 		s.js(node.String())
 	case *ast.GlobalNode:
